@@ -43,7 +43,7 @@ def mc_cfg(name, consts):
         f.write("SPECIFICATION Spec\nCONSTANTS\n")
         for k, v in consts.items():
             f.write(f"  {k} = {v}\n")
-        f.write('  IfMode = "disjoint"\n  BacktrackMode = "table"\n  ScoreMode = "nodes"\n')
+        f.write('  IfMode = "disjoint"\n  BacktrackMode = "table"\n  ScoreMode = "nodes2"\n')
         f.write("INVARIANT InvLayout\nINVARIANT InvEmit\nCHECK_DEADLOCK FALSE\n")
     return name
 
